@@ -68,6 +68,10 @@ func (c06) Gen(r *core.Rng, tier string, idx int) *core.Trace {
 	t.Cfg["collide"] = int64(r.Intn(2))
 	t.Cfg["twins"] = int64(r.PickW(55, 45))
 	t.Cfg["longnames"] = int64(r.PickW(60, 40))
+	t.Cfg["manydirs"] = 0
+	if r.Chance(20) {
+		t.Cfg["manydirs"] = r.Range(40, 120) // path tables of more than one block, and longer in Joliet than in the primary tree
+	}
 	t.Cfg["symlinks"] = int64(r.Intn(2))
 	t.CfgS["volid"] = core.PickOf(r, "", "MYVOL", "A_LONGER_VOLUME_ID_0123456789", "X")
 	return t
@@ -172,6 +176,22 @@ func c06Tree(t *core.Trace) []imgEntry {
 					p = d + "/" + name
 				}
 				tree = append(tree, mk(p, int64(len(p))+6+int64(i)*1000))
+			}
+		}
+	}
+	if md := t.I("manydirs"); md > 0 {
+		if md > 300 {
+			md = 300
+		}
+		tree = append(tree, imgEntry{Path: "pt", Dir: true})
+		for i := int64(0); i < md; i++ {
+			dn := fmt.Sprintf("pt/directory-with-a-long-name-%03d", i)
+			if i%3 == 1 {
+				dn = fmt.Sprintf("pt/directory-with-a-long-name-%03d/nested-%03d", i-1, i)
+			}
+			tree = append(tree, imgEntry{Path: dn, Dir: true})
+			if i%4 == 0 {
+				tree = append(tree, mk(dn+"/in.txt", int64(len(dn))+40+i))
 			}
 		}
 	}
